@@ -194,6 +194,7 @@ class _Run:
         self.hist = {}      # eid -> list of counts
         self.fired = collections.Counter()
         self.failed = set()
+        self.kept = []
 
     def _metadata(self, k):
         from streamz import RefCounter
@@ -305,6 +306,13 @@ class _Run:
             return None
         got = [(n, _fz(v)) for n, v, m in self.log]
         want = [(n, _fz(v.val)) for n, v in exp]
+        # what was handed on earlier stays what it was (a mutable batch the node keeps using would change)
+        for n0, obj, frozen in self.kept:
+            if _fz(obj) != frozen:
+                return ("delivered-object-changed-later", n0, dict(delivered=frozen, now=_fz(obj)))
+        for n, v, m in self.log:
+            if isinstance(v, (list, dict)):
+                self.kept.append((n, v, _fz(v)))
         if got != want:
             clause = "sibling-order" if sorted(map(repr, got)) == sorted(map(repr, want)) else "value"
             return (clause, self._first_div(exp), dict(got=got[:12], want=want[:12]))
